@@ -107,17 +107,24 @@ Definition inst_allowed (bodies : list (dict member)) : list nat :=
   (if Nat.leb 2 nd then [6] else []).
 
 (* ---- observations --------------------------------------------------- *)
+(* one observation per event of the history *)
 Inductive iobs :=
-| IErr (code : nat)
-| IOk (names descs : list string) (calls : list nat).
+| IErr (code : nat)                          (* C() raised                                        *)
+| IOk (names descs : list string)            (* o.state_names / o.state_descriptions after binding *)
+      (sub_names sub_descs : option (list string))
+                                             (* the two topics as an independent NetworkTables
+                                                subscriber sees them (None: no value)             *)
+      (calls : list nat)
+| IPub (seen : option (list string)).        (* after a plain publish: the topic as the subscriber sees it *)
 
 Inductive hobs :=
 | HDefErr (cls code : nat)
-| HDefined (insts : list iobs) (adapters : list (nat * string * list nat)).
+| HDefined (evs : list iobs) (adapters : list (nat * string * list nat)).
 
 Record hcase := {
   h_classes : list classdef;
-  h_targets : list (list nat);       (* one MRO (class indices) per instantiated class *)
+  h_init : ntstore;                  (* the topics that hold a value before the first event *)
+  h_events : list event;             (* instantiate-and-bind attempts and plain publishes, in order *)
   h_obs : hobs
 }.
 
@@ -128,13 +135,33 @@ Definition call_code : nat :=
   | Ok _ => 0
   end.
 
-Definition inst_agree (dicts : list (dict member)) (mro : list nat) (o : iobs) : bool :=
-  let bodies := map (fun i => nth i dicts []) mro in
-  match o, build_states bodies with
-  | IErr code, Err _ => memn code (inst_allowed bodies)
-  | IOk names descs calls, Ok r =>
-      strs_eqb names (r_names r) && strs_eqb descs (r_descs r) &&
+Definition optstrs_eqb (a b : option (list string)) : bool :=
+  match a, b with
+  | Some x, Some y => strs_eqb x y
+  | None, None => true
+  | _, _ => false
+  end.
+
+(* [w] the world before the event, [out]/[w'] what the model's step gives *)
+Definition event_agree (w : world) (ev : event) (out : outcome) (w' : world) (o : iobs) : bool :=
+  match ev, out, o with
+  | EInst mro _, ORaised _, IErr code =>
+      memn code (inst_allowed (map (fun i => nth i (w_dicts w) []) mro))
+  | EInst _ cname, OBound r names descs, IOk n d sn sd calls =>
+      strs_eqb n names && strs_eqb d descs &&
+      optstrs_eqb sn (dict_get (topic cname "state_names") (w_nt w')) &&
+      optstrs_eqb sd (dict_get (topic cname "state_descriptions") (w_nt w')) &&
       forallb (Nat.eqb call_code) calls
+  | EPublish key _, OPublished, IPub seen => optstrs_eqb seen (dict_get key (w_nt w'))
+  | _, _, _ => false
+  end.
+
+Fixpoint events_agree (w : world) (h : list event) (os : list iobs) : bool :=
+  match h, os with
+  | [], [] => true
+  | ev :: h', o :: os' =>
+      let (w', out) := step w ev in
+      event_agree w ev out w' o && events_agree w' h' os'
   | _, _ => false
   end.
 
@@ -157,7 +184,8 @@ Definition h_agree (reserved : list string) (c : hcase) : bool :=
                                (nth i (sm_flags (h_classes c)) false)
                                (c_body (nth i (h_classes c) empty_class)))
   | Ok dicts, HDefined insts adapters =>
-      forallb2 (inst_agree dicts) (h_targets c) insts && forallb (adapter_agree dicts) adapters
+      events_agree {| w_dicts := dicts; w_nt := h_init c |} (h_events c) insts &&
+      forallb (adapter_agree dicts) adapters
   | _, _ => false
   end.
 
